@@ -257,3 +257,15 @@ def s_average_weights(a, b, v):
     r = np.average(m * 10, axis=0, weights=w) * 10
     s = np.average(a * w.sum(), weights=w)
     return np.hstack([r, np.array([s])])
+
+
+def s_indices(a, b, v):
+    g = np.indices((2, 3, 4))
+    return np.hstack([g.reshape(3, -1).T.reshape(-1), np.indices((3,))[0] + v])
+
+
+def s_functools_reduce(a, b, v):
+    import functools
+    k = functools.reduce(np.kron, [a[:2], b[:2], a[2:4]])
+    t = functools.reduce(lambda x, y: x * 2 + y, [1, 2, 3], v)
+    return np.hstack([k, np.array([t])])
